@@ -78,6 +78,20 @@ def make_scenarios(ctx, count):
                 third = rng.choice(netb.strangers)
                 for (_k, _p, s_i, d_i) in rng.sample(descs, min(len(descs), rng.randint(1, 3))):
                     feed(1, W.probe(b, s_i, b, third, train=rng.random() < 0.5), "F")
+            busy = i % 5 == 4 and capb <= 80
+            if busy:
+                # B is busy: it already holds more observations than one QueryResp carries when A's frames arrive, the mapper
+                # fetches one (truncated) QueryResp, has A emit the very same frames again, and only then fetches the rest
+                third = rng.choice(netb.strangers)
+                for fsrc in G.distinct_macs(rng, rng.choice([capb, 2 * capb + 3, 3 * capb]), avoid=[a, b] + srcs):
+                    feed(1, W.probe(b, fsrc, b, third, train=rng.random() < 0.3), "F")
+                seq += 1
+                feed(0, W.emit(a, neta.mappers[m], seq, descs, eth_src=neta.bridges[m] if (bridged or b_is_bridge) else None), "EMIT")
+                s.add("DELIVER 0 1")
+                ops.append(("DELIVER", descs))
+                seq += 1
+                feed(1, G.f_query(rng, netb, m, seq=seq, bridged=bridged and not b_is_bridge), "QUERY")
+                ops.append(("HALF",))
             seq += 1
             feed(0, W.emit(a, neta.mappers[m], seq, descs, eth_src=neta.bridges[m] if (bridged or b_is_bridge) else None), "EMIT")
             s.add("DELIVER 0 1")
@@ -86,7 +100,7 @@ def make_scenarios(ctx, count):
                 # the mapper repeats its Discover before querying, sometimes already under a new generation number
                 feed(1, G.f_discover(rng, netb, m=m, tos=0, bridged=bridged and not b_is_bridge,
                                      gen=gen if rng.random() < 0.5 else rng.choice([0, gen + 1, rng.randint(0, 65535)])), "F")
-            nq = (n + 8) // max(1, capb) + 2
+            nq = (n + 8 + (3 * capb if busy else 0)) // max(1, capb) + 2
             for _ in range(nq):
                 seq += 1
                 feed(1, G.f_query(rng, netb, m, seq=seq, bridged=bridged and not b_is_bridge), "QUERY")
@@ -101,6 +115,7 @@ def monitor(scn, sobj, rep, sf, ck):
     a, b = sobj.meta["a"], sobj.meta["b"]
     it = iter(scn.inputs)
     pend = None
+    expect_prev, listed_prev = {}, set()
     expect = {}       # (eth src) -> raw frame delivered, for this round
     listed = set()
     delivered_total = 0
@@ -142,12 +157,23 @@ def monitor(scn, sobj, rep, sf, ck):
                 if inp.out is None:
                     dead = True
                     break
+        elif op[0] == "HALF":
+            # one QueryResp has been fetched and more may be pending: what was delivered so far must show up in that response
+            # or in a later one; what is delivered from now on must show up in a later one
+            expect_prev, listed_prev = expect, listed
+            expect, listed = {}, set()
+            rep.count("frames_emitted_again_after_a_truncated_response", 1 if expect_prev else 0)
         elif op[0] == "ROUND-END":
             rounds += 1
             rep.evaluations += len(expect)
+            only_first = {esrc for esrc in expect_prev if esrc not in expect}      # delivered before the first response only
+            for esrc in only_first:
+                expect[esrc] = expect_prev[esrc]
+            listed_first = listed_prev | listed
+            expect_prev, listed_prev = {}, set()
             for esrc, raw in expect.items():
                 want = (a, esrc, b)
-                if want not in listed:
+                if want not in (listed_first if esrc in only_first else listed):
                     f = W.decode(raw)
                     why = "real-destination-differs" if f.real_dst != b else "real-source-differs" if f.real_src != a else "not-reported"
                     rep.violation("C10:emitted-frame-not-reported-by-peer:%s" % why,
@@ -185,6 +211,7 @@ def run(ctx):
     run_monitored(ctx, os_clang, scns[third:2 * third], monitor, tag="peer-clang-os")
     run_monitored(ctx, uchar, scns[2 * third:], monitor, tag="peer-uchar")
     rep.need("frames_delivered", rep.counters.get("frames_delivered", 0), 1000)
+    rep.need("frames_emitted_again_after_a_truncated_response", rep.counters.get("frames_emitted_again_after_a_truncated_response", 0), 20)
     rep.need("emitter_address_changed_mid_session", rep.counters.get("emitter_address_changed_mid_session", 0), 30)
     rep.need("frames_delivered_to_the_mappers_bridge", rep.counters.get("frames_delivered_to_the_mappers_bridge", 0), 100)
     rep.need("clock_gaps_between_frames", rep.counters.get("clock_gaps_between_frames", 0), 200)
